@@ -22,6 +22,28 @@ CHECKS = {
              'inside those bounds, nothing is sampled.',
         note='Trusted: mc.ref.bits (Python int model), CPython integers. Beyond the bound: sequences longer than 4 '
              'fields, values other than the boundary lattice.'),
+    'C15': dict(
+        level='model_checking', design='DESIGN.md §4 C15',
+        technique='exhaustive enumeration of all strings over a 12-symbol alphabet up to length 6 (thorough 8), plus '
+                  'explicit-state BFS (E2) to a fixpoint over the product of the reference DFA with the real parser, '
+                  'plus the complete 1-edit neighbourhood of long expressions',
+        text='Acceptance, AST (separator, id, slice semantics), exception type and print/parse round trip are decided '
+             'for every string of the bounded language space; the DFA product is explored to its fixpoint with probe '
+             'suffixes, so acceptance behaviour is covered for every reachable parser state, not only short strings.',
+        note='Trusted: mc.ref.pathlang (recogniser == DFA checked by selftest on all strings <= 6 over 11 symbols). '
+             "Don't-care: first separator '.' (EBNF allows, repository tests pin rejection). Beyond the bound: ids/ints "
+             'are represented by 0,7,A; strings longer than the bound are covered only through the DFA product.'),
+    'C18': dict(
+        level='model_checking', design='DESIGN.md §4 C18',
+        technique='exhaustive enumeration of all strings over a 9-symbol alphabet up to length 7 (thorough 9) and of all '
+                  'fragment sequences up to 4 (thorough 5) against a reference tokeniser; full product of message x query '
+                  'x nest-level argument x pragma for the runner',
+        text='Every string of the bounded script space is preprocessed by the real code and compared with the reference '
+             'tokenisation (substitution, injectivity, byte-identical remainder); the ScriptRunner relations between the '
+             'nesting levels, the metadata-only flag and the injected names are checked on the full product of a message '
+             'pool, its queries and the argument/pragma levels.',
+        note='Trusted: mc.ref.scriptlang (hand vectors). Escape-free, non-triple-quoted literals only; unterminated '
+             'literals/embeds are executed but not judged (counted as undefined_skipped).'),
 }
 
 NOT_YET = 'check not built yet in this round (design in DESIGN.md §4); no claim is made'
